@@ -309,8 +309,10 @@ def match_sequence_type(value: Any,
             return True
         elif not st.startswith(node_kind) or not st.endswith(')'):
             return False
-        elif st == f'{node_kind}()':
+        elif st == f'{node_kind}()' or st == 'namespace-node()':
             return True
+        elif node_kind == 'processing-instruction':
+            return v.name == st[23:-1].strip('"\' ')
         elif node_kind == 'document':
             element_test = st[14:-1]
             if not element_test:
